@@ -34,6 +34,9 @@ def body(c, prop="C12", kinds='{"val", "del"}', nvks=(1,), invariants=("ReadStab
             L.model_must_fail(c, "skipped levels counted as overlapping (rejected repair)", dict(small, BaseSkip='"checked"'), "ReadStable")
         L.scenario_baseflip(c, prop)
         L.size_walks(c, prop, 24 if q else 1200)
+        # the level targets a compactor captured may be out of date when it picks its tables
+        L.compactors_mc(c, q, sensitivity=True)
+        L.compactors_traces(c, prop, 8 if q else 200, scenario=True)
     # 2. state injection, L0->Lbase and Li->Li+1 (MinL0L0 irrelevant for these families)
     allcases = []
     for nvk in nvks:
